@@ -1208,7 +1208,12 @@ def adaptive_case(ctx, rng):
     kw = {'num_candidates': int(pick(rng, [1, 2])), 'candidate_iters': 3, 'improvement_iters': int(pick(rng, [0, 1])),
           'max_levels': ML, 'max_coarse': MC, 'symmetry': sym,
           'smooth': pick(rng, [None, ('jacobi', {}), 'richardson']), 'keep': bool(rng.random() < 0.5)}
-    seed = int(rng.integers(2 ** 31))
+    adaptive_eval(ctx, D, kw, int(rng.integers(2 ** 31)))
+
+
+def adaptive_eval(ctx, D, kw, seed):
+    from pyamg.aggregation import adaptive_sa_solver
+    ML, MC = kw['max_levels'], kw['max_coarse']
     A = gen.int32csr(sp.csr_array(D))
     D0 = D.copy()
     ctx.feat('ctor:adaptive')
@@ -1291,7 +1296,11 @@ def search(ctx):
 
 def replay(ctx, data):
     c = data['case']
-    if c.get('adaptive') or c.get('bare'):
+    if c.get('adaptive'):
+        kw = unpack(c['kw'])
+        print('replaying adaptive_sa_solver on a', np.shape(unpack(c['A'])), 'matrix with', kw)
+        adaptive_eval(ctx, unpack(c['A']), kw, c['seed'])
+    elif c.get('bare'):
         print('replay: adaptive_sa_solver / bare MultilevelSolver cases are re-searched with the recorded seed of the run')
         ctx.np_rng = np.random.default_rng((data.get('seed', 0) * 7919 + 4) % (2 ** 32))
         run_cases(ctx, 600)
